@@ -550,7 +550,10 @@ XMLSize_t XMLString::replaceTokens(          XMLCh* const    errText
          else
         {
             // Escape the curly brace character and continue
-            errText[curOutInd++] = *pszSrc++;
+            if (curOutInd < maxChars)
+                errText[curOutInd++] = *pszSrc++;
+            else
+                break;
         }
     }
 
